@@ -104,14 +104,14 @@ REFS = {
     "hashrightjoin": (_jref("right", key="k"), "multiset"),
     "hashantijoin": (_jref("anti", key="k", squareup=False), "seq"),
     "hashlookupjoin": (_jref("lookup", key="k"), "seq"),
-    "complement": (lambda S: _tab(RS.ref_complement(S[0], S[1])), "seq"),
-    "complement_strict": (lambda S: _tab(RS.ref_complement(S[0], S[1], strict=True)), "seq"),
-    "intersection": (lambda S: _tab(RS.ref_intersection(S[0], S[1])), "seq"),
-    "recordcomplement": (lambda S: _tab(RS.ref_complement(S[0], _cutb(S))), "seq"),
-    "diff0": (lambda S: _tab(RS.ref_complement(S[1], S[0])), "seq"),
-    "diff1": (lambda S: _tab(RS.ref_complement(S[0], S[1])), "seq"),
-    "recorddiff0": (lambda S: _tab(RS.ref_complement(_proj(S[1], _PERM), _proj(S[0], _PERM))), "seq"),
-    "recorddiff1": (lambda S: _tab(RS.ref_complement(S[0], _cutb(S))), "seq"),
+    "complement": (lambda S: _tab(RS.ref_complement(S[0], S[1])), "multiset"),
+    "complement_strict": (lambda S: _tab(RS.ref_complement(S[0], S[1], strict=True)), "multiset"),
+    "intersection": (lambda S: _tab(RS.ref_intersection(S[0], S[1])), "multiset"),
+    "recordcomplement": (lambda S: _tab(RS.ref_complement(S[0], _cutb(S))), "multiset"),
+    "diff0": (lambda S: _tab(RS.ref_complement(S[1], S[0])), "multiset"),
+    "diff1": (lambda S: _tab(RS.ref_complement(S[0], S[1])), "multiset"),
+    "recorddiff0": (lambda S: _tab(RS.ref_complement(_proj(S[1], _PERM), _proj(S[0], _PERM))), "multiset"),
+    "recorddiff1": (lambda S: _tab(RS.ref_complement(S[0], _cutb(S))), "multiset"),
     "hashcomplement": (lambda S: _tab(RS.ref_complement(S[0], S[1], ordered=False)), "seq"),
     "hashintersection": (lambda S: _tab(RS.ref_intersection(S[0], S[1], ordered=False)), "seq"),
 }
